@@ -153,13 +153,22 @@ Definition item_ok (c : sconn) (it : item) (s : RS.state) : bool :=
    D3: a WINDOW_UPDATE on a stream the peer itself closed with RST_STREAM is ignored
        (RFC 5.1: stream error STREAM_CLOSED); the ring does not record who closed.
    D6: a SETTINGS or GOAWAY frame carrying the id of a recently closed stream is answered
-       with GOAWAY(STREAM_CLOSED); RFC 6.5/6.8 name PROTOCOL_ERROR. *)
+       with GOAWAY(STREAM_CLOSED); RFC 6.5/6.8 name PROTOCOL_ERROR.
+   D7: the peer resets a stream whose response still has data queued: sendData runs once more
+       on it, and if the body reader fails right then RST_STREAM(INTERNAL_ERROR) goes out in
+       the same step as the peer's RST_STREAM is processed (RFC 6.4).  Needs send window to be
+       available at that moment, which the flow-control invariant (C06, no stall) excludes. *)
 Definition known_deviation (c : sconn) (s : RS.state) (i : rl_input) : bool :=
   match i with
   | RFrame f =>
     match sf_kind f with
     | KPriority => N.even (sf_sid f) && negb (sf_sid f =? 0)
     | KSettings | KGoAway => negb (sf_sid f =? 0) && in_ring c (sf_sid f)
+    | KRst =>
+      match strms_search (sc_strms c) (sf_sid f) with
+      | Some st => st_responded st && negb (st_handlerRunning st) && has_more_to_send st
+      | None => false
+      end
     | KWinUpd =>
       match ring_find c (sf_sid f), RS.st_of s (sf_sid f) with
       | Some false, RS.Closed RS.PeerRst => true
